@@ -482,13 +482,17 @@ def fetch_until_data(ck, P, cfg, R="CUT/fetch-until-data"):
                 g = sig.sig(a, f)
                 if "have" in g.names and 0 in g.consts:
                     tests.add(b)
-    rets = [b for b in f.live if f.blocks[b]["t"]["k"] == "return"]
-    # error exits are not at issue: a block that builds the Err result (the `?` residual, or an explicit Err) ends the search
-    errs = {c.bb for c in f.live_calls(r"from_residual$")}
+    # the success results (`Ok(..)`, or `true` where the helper reports through a bool): none is produced between a successful
+    # gz_decomp and the test of `have`
+    succ = set()
     for bi, si, lhs, rv, st in f.assignments():
-        if bi in f.live and isinstance(rv, dict) and rv.get("k") == "agg" and rv.get("variant") == "Err" and lhs and lhs.get("l") == 0:
-            errs.add(bi)
-    ok = bool(tests) and not flow.reaches_avoiding(f, starts, rets, cut_blocks=tests | errs)
+        if bi not in f.live or not (lhs and lhs.get("l") == 0 and not lhs.get("p")) or not isinstance(rv, dict):
+            continue
+        if rv.get("k") == "agg" and rv.get("variant") == "Ok":
+            succ.add(bi)
+        elif rv.get("k") == "use" and (rv.get("a") or {}).get("k") == "const" and (rv["a"].get("val") in (1, True)) and "bool" in str(rv["a"].get("ty")):
+            succ.add(bi)
+    ok = bool(tests) and bool(succ) and not flow.reaches_avoiding(f, starts, succ, cut_blocks=tests)
     ck.decide(ok, R, "gz_fetch:gzip@" + cfg, "no return between a successful gz_decomp and the test of `have`",
               "gz_fetch can return right after gz_decomp without testing whether any output was produced: at a member boundary it reports "
               "success with an empty buffer, which gzgets and the gzgetc macro take for end of file", where(f, calls[0].line))
